@@ -1,3 +1,82 @@
 import Sheens.ES
+import Sheens.Proofs.EngineLemmas
 
-/-! Property C07 — theorems (in progress). -/
+/-!
+# Property C07 — processing is total; failures become error states or errors
+
+In the model, every Go operation that could panic on a model-representable input (nil bindings,
+nil `*Execution`, nil `*Control`, negative limit) is an explicit case of a total function: after the
+repairs recorded in `known_findings.json` no `panic` arm is left in `execWrap`, `step` and `walk`
+(the correspondence run checks, for every generated nil/negative/failing combination, that the
+implementation does not panic where the model returns normally).  What remains to be *proved* is that
+every failure is surfaced.
+-/
+
+namespace Sheens.C07
+
+/-- Any error returned by a step at a node other than the error node becomes a transition to the
+    error node whose bindings carry the error text, the node at which it occurred and the bindings
+    at that point. -/
+theorem walk_surfaces_errors (s : Spec) (st : State) (pending : Option V) (e : StepErr)
+    (he : (step s st pending).err = some e) (hn : (st.node == "error") = false) :
+    ∃ eb, (walkStride s st pending).to = some { node := "error", bs := some eb } ∧
+      lookup "error" eb = some (.str (errText s.name e)) ∧
+      lookup "lastNode" eb = some (.str st.node) ∧
+      lookup "lastBindings" eb = some (.obj (copyB st.bs)) := by
+  unfold walkStride
+  simp only [he, hn]
+  refine ⟨_, rfl, ?_, ?_, ?_⟩
+  · rw [lookup_insertB_ne _ _ (by decide), lookup_insertB_ne _ _ (by decide), lookup_insertB_self]
+  · rw [lookup_insertB_ne _ _ (by decide), lookup_insertB_self]
+  · rw [lookup_insertB_self]
+
+/-- Without an error the walk takes the stride the step produced. -/
+theorem walkStride_no_error (s : Spec) (st : State) (pending : Option V) (sd : Stride)
+    (he : (step s st pending).err = none) (hs : (step s st pending).stride = some sd) :
+    walkStride s st pending = sd := by
+  unfold walkStride
+  simp only [he, hs]
+
+/-- An action failure is surfaced at the designated action-error node with the error text bound. -/
+theorem action_error_surfaces (s : Spec) (st : State) (pending : Option V) (n : Node) (a : ActionF)
+    (e : String)
+    (hc : s.compiled = true) (hn : findNode st.node s.nodes = some n) (ha : n.action = some a)
+    (hm : ∀ br, n.branches = some br → br.type ≠ "message")
+    (he : (execWrap a st.bs).err = some e) (hb : s.actionErrorBranches = false)
+    (ht : s.actionErrorNode ≠ "") :
+    ∃ eb, (walkStride s st pending).to = some { node := s.actionErrorNode, bs := some eb } ∧
+      lookup "actionError" eb = some (.str e) ∧ lookup "error" eb = some (.str e) := by
+  refine ⟨actErrBs e st.bs, ?_, ?_, ?_⟩
+  · unfold walkStride
+    rw [step_action_err_node s st pending n a e hc hn ha hm he hb ht]
+  · unfold actErrBs
+    rw [lookup_insertB_ne _ _ (by decide), lookup_insertB_self]
+  · unfold actErrBs
+    rw [lookup_insertB_self]
+
+/-- An action failure with no error settings ends at the error node with the error text. -/
+theorem action_error_default (s : Spec) (st : State) (pending : Option V) (n : Node) (a : ActionF)
+    (e : String)
+    (hc : s.compiled = true) (hn : findNode st.node s.nodes = some n) (ha : n.action = some a)
+    (hm : ∀ br, n.branches = some br → br.type ≠ "message")
+    (he : (execWrap a st.bs).err = some e) (hb : s.actionErrorBranches = false)
+    (ht : s.actionErrorNode = "") (hne : (st.node == "error") = false) :
+    ∃ eb, (walkStride s st pending).to = some { node := "error", bs := some eb } ∧
+      lookup "error" eb = some (.str e) ∧ lookup "lastNode" eb = some (.str st.node) := by
+  have h := step_action_err_ret s st pending n a e hc hn ha hm he hb ht
+  obtain ⟨eb, h1, h2, h3, _⟩ := walk_surfaces_errors s st pending (.action e) (by rw [h]) hne
+  exact ⟨eb, h1, h2, h3⟩
+
+/-- An unknown node (or an uncompiled spec) is an error of the step, never a crash, whatever the
+    bindings (absent included). -/
+theorem unknown_node_is_error (s : Spec) (st : State) (pending : Option V)
+    (hc : s.compiled = true) (hn : findNode st.node s.nodes = none) :
+    (step s st pending).stride = none ∧ (step s st pending).err = some (.unknownNode st.node) := by
+  rw [step_unknown s st pending hc hn]
+  exact ⟨rfl, rfl⟩
+
+/-- `FuncAction.Exec` always hands back an execution, whatever the action returned. -/
+theorem execWrap_exe_some (a : ActionF) (bs : Option Bs) : (execWrap a bs).exe ≠ none := by
+  exact execWrap_exe_ne_none a bs
+
+end Sheens.C07
